@@ -5,7 +5,8 @@ OPS = [
     {'op': 'prelude', 'text': '#[allow(unused_imports)] use vstd::prelude::*;\n'
                               '#[allow(unused_imports)] use crate::verif_ext::*;\n'
                               '#[allow(unused_imports)] use crate::verif_spec::*;\n'
-                              'verus! { broadcast use crate::verif_ext::group_ipp_seq; }'},
+                              '#[allow(unused_imports)] use vstd::std_specs::iter::IteratorSpec;\n#[allow(unused_imports)] use crate::model::DelimiterTag as _DT;\n'
+                              'verus! { broadcast use {crate::verif_ext::group_ipp_seq, crate::verif_ext::axiom_string_key_model, vstd::std_specs::hash::group_hash_axioms, crate::verif_ext::group_ipp_machine}; }'},
     {'op': 'wrap', 'items': ['fn is_header_attr', 'struct IppAttribute', 'impl IppAttribute', 'struct IppAttributeGroup',
                              'impl IppAttributeGroup', 'struct IppAttributes', 'impl IppAttributes']},
     {'op': 'item_attr', 'item': 'struct IppAttribute', 'text': '#[verifier::external_derive]'},
@@ -23,8 +24,29 @@ impl IppAttributeGroup {
 impl IppAttributes {
     pub closed spec fn sgroups(&self) -> Seq<IppAttributeGroup> { self.groups@ }
 }
+/// C09: the list of attributes the encoder writes first is exactly the RFC 8011 §4.1.4-4.1.5 list, in that order
+proof fn lemma_header_attrs_ok()
+    ensures hdrs_ok(IppAttribute::HEADER_ATTRS@),
+{
+    let hs = IppAttribute::HEADER_ATTRS@;
+    reveal_strlit("attributes-charset"); reveal_strlit("attributes-natural-language");
+    reveal_strlit("printer-uri"); reveal_strlit("job-uri"); reveal_strlit("job-id");
+    assert("attributes-charset"@.len() == 18 && "attributes-natural-language"@.len() == 27 && "printer-uri"@.len() == 11
+        && "job-uri"@.len() == 7 && "job-id"@.len() == 6);
+    assert(target_rank("attributes-charset"@) == 0 && target_rank("attributes-natural-language"@) == 1
+        && target_rank("printer-uri"@) == 2 && target_rank("job-uri"@) == 2 && target_rank("job-id"@) == 3);
+    assert forall|n: Seq<char>| target_rank(n) < 4 implies exists|a: int| 0 <= a < hs.len() && (#[trigger] hs[a])@ == n by {
+        if n == "attributes-charset"@ { assert(hs[0]@ == n); }
+        else if n == "attributes-natural-language"@ { assert(hs[1]@ == n); }
+        else if n == "printer-uri"@ { assert(hs[2]@ == n); }
+        else if n == "job-uri"@ { assert(hs[3]@ == n); }
+        else { assert(hs[4]@ == n); }
+    }
+}
 } // verus!'''},
-    {'op': 'fn', 'path': 'is_header_attr', 'ret': 'r', 'attrs': ['#[verifier::external_body]']},
+    # closure pattern parameter `|&at|` is outside Verus: body unverified, contract assumed
+    {'op': 'fn', 'path': 'is_header_attr', 'ret': 'r', 'attrs': ['#[verifier::external_body]'],
+     'spec': '''    ensures r == (exists|q: int| 0 <= q < IppAttribute::HEADER_ATTRS@.len() && (#[trigger] IppAttribute::HEADER_ATTRS@[q])@ == attr@),'''},
     {'op': 'fn', 'path': 'IppAttribute::new', 'ret': 'r', 'attrs': ['#[verifier::external_body]'],
      'spec': '    ensures r.sname() == as_ref_str(&name), r.sval() == value,'},
     {'op': 'fn', 'path': 'IppAttribute::name', 'ret': 'r', 'spec': '    ensures r@ == self.sname(),'},
@@ -45,9 +67,135 @@ impl IppAttributes {
     {'op': 'fn', 'path': 'IppAttributes::groups_mut', 'ret': 'r',
      'spec': '    ensures r@ == old(self).sgroups(), final(r)@ == final(self).sgroups(),'},
     {'op': 'fn', 'path': 'IppAttributes::into_groups', 'ret': 'r', 'spec': '    ensures r@ == self.sgroups(),'},
-    {'op': 'fn', 'path': 'IppAttributes::groups_of', 'attrs': ['#[verifier::external_body]']},
+    {'op': 'fn', 'path': 'IppAttributes::groups_of', 'ret': 'r', 'attrs': ['#[verifier::external_body]'],
+     'spec': '''    ensures
+        r.obeys_prophetic_iter_laws(),
+        r.remaining().map_values(|g: &IppAttributeGroup| *g) == groups_with(self.sgroups(), tag),'''},
     {'op': 'fn', 'path': 'IppAttributes::add', 'attrs': ['#[verifier::external_body]'],
      'spec': '''    ensures abs_groups(*final(self)) == spec_add(abs_groups(*old(self)), tag, attribute.sname(), aval(attribute.sval())),'''},
-    {'op': 'fn', 'path': 'IppAttributes::to_bytes', 'ret': 'r', 'attrs': ['#[verifier::external_body]'],
-     'spec': '    ensures buf_seq(&r) == spec_attrs_bytes(self),'},
+    {'op': 'fn', 'path': 'IppAttributes::to_bytes', 'ret': 'r',
+     'spec': '''    requires groups_wf(self.sgroups()),
+    ensures exists|ops: Seq<String>, others: Seq<(int, Seq<String>)>| attrs_enc_ok(self.sgroups(), buf_seq(&r), ops, others),''',
+     'loops': {
+         0: {'iter_name': 'it1', 'spec': '''
+                invariant
+                    m == group.sattrs(), attrs_wf(m), hs == IppAttribute::HEADER_ATTRS@,
+                    it1.snapshot@.remaining().len() == hs.len(),
+                    forall|q: int| 0 <= q < hs.len() ==> *(#[trigger] it1.snapshot@.remaining()[q]) == hs[q],
+                    buf_seq(&buffer) == s1(0x01) + keys_enc(m, ops, ops.len()),
+                    loop1_inv(m, hs, ops, qs, it1.index@),
+'''},
+         2: {'iter_name': 'it3', 'spec': '''
+            invariant
+                gs == self.sgroups(), groups_wf(gs),
+                forall|i: int| 0 <= i < it3.snapshot@.remaining().len() ==> from_groups(gs, *(#[trigger] it3.snapshot@.remaining()[i])),
+                buf_seq(&buffer) == pre + others_enc(gs, others, others.len()),
+                others_ok(gs, others),
+'''},
+     },
+     'w8': [
+         {'loop': 1, 'kind': 'values', 'iter_name': 'it2', 'spec': '''
+                invariant
+                    m == group.sattrs(), attrs_wf(m), hs == IppAttribute::HEADER_ATTRS@, hdrs_ok(hs),
+                    iter_facts(m, it2.snapshot@.remaining()),
+                    buf_seq(&buffer) == s1(0x01) + keys_enc(m, ops, ops.len()),
+                    loop1_inv(m, hs, ops1, qs, hs.len() as int),
+                    loop2_inv(m, ops1, iter_keys(it2.snapshot@.remaining()), ops, ps, it2.index@),
+'''},
+         {'loop': 3, 'kind': 'values', 'iter_name': 'it4', 'spec': '''
+                invariant
+                    mg == group.sattrs(), attrs_wf(mg),
+                    iter_facts(mg, it4.snapshot@.remaining()),
+                    cur =~= iter_keys(it4.snapshot@.remaining()).take(it4.index@),
+                    it4.index@ == it4.snapshot@.remaining().len() ==> key_perm(cur, mg),
+                    buf_seq(&buffer) == base + s1(group.stag() as u8) + keys_enc(mg, cur, cur.len()),
+'''},
+     ],
+     'closures': {0: {'expect_params': '|group|', 'types': {'group': '&&IppAttributeGroup'}, 'ret': 'b: bool',
+                      'spec': '    ensures b == (group.stag() != DelimiterTag::OperationAttributes)'}},
+     'proofs': [
+         {'at_start': True, 'text': '''broadcast use crate::verif_lemmas::group_ipp_attrs;
+        let ghost gs = self.sgroups();
+        let ghost i0 = first_op(gs);
+        #[verifier::prophetic]
+        let ghost mut ops: Seq<String> = Seq::empty();
+        #[verifier::prophetic]
+        let ghost mut others: Seq<(int, Seq<String>)> = Seq::empty();
+        let ghost hs = IppAttribute::HEADER_ATTRS@;
+        proof { crate::verif_lemmas::lemma_first_op(gs); lemma_header_attrs_ok(); }
+'''},
+         {'loop': 0, 'where': 'before', 'text': '''proof { assert(i0 < gs.len() && *group == gs[i0]); }
+            let ghost m = group.sattrs();
+            let ghost mut qs: Seq<int> = Seq::empty();
+'''},
+         {'loop': 0, 'where': 'body_start', 'text': '''
+                let ghost q = it1.index@;
+                proof { assert(*hdr == hs[q]);
+                        crate::verif_lemmas::lemma_loop1_step(m, hs, ops, qs, q, m.contains_key(str_of(hs[q]@))); }
+'''},
+         {'after': 'buffer.put(attr.to_bytes());', 'nth': 0, 'optional': True, 'text': '''
+                    proof {
+                        assert(m.contains_key(str_of(hdr@)) && m[str_of(hdr@)] == *attr);
+                        crate::verif_lemmas::lemma_keys_enc_push(m, ops, str_of(hdr@));
+                        ops = ops.push(str_of(hdr@));
+                        qs = qs.push(q);
+                    }'''},
+         {'loop': 1, 'where': 'before', 'text': '''let ghost ops1 = ops;
+            #[verifier::prophetic]
+            let ghost mut ps: Seq<int> = Seq::empty();
+'''},
+         {'loop': 1, 'where': 'body_start', 'text': '''
+                let ghost p = it2.index@;
+                let ghost vks = iter_keys(it2.snapshot@.remaining());
+                proof {
+                    assert(m.contains_key(vks[p]) && m[vks[p]] == *attr);
+                    crate::verif_lemmas::lemma_loop2_step(m, ops1, vks, ops, ps, p, target_rank(m[vks[p]].sname()) == 4);
+                }
+'''},
+         {'after': 'buffer.put(attr.to_bytes());', 'nth': 1, 'optional': True, 'text': '''
+                    proof {
+                        crate::verif_lemmas::lemma_keys_enc_push(m, ops, vks[p]);
+                        ops = ops.push(vks[p]);
+                        ps = ps.push(p);
+                    }'''},
+         {'loop': 2, 'where': 'before', 'text': '''let ghost pre = buf_seq(&buffer);
+        proof {
+            assert(i0 < gs.len() ==> key_perm(ops, gs[i0].sattrs()) && ranks_sorted(gs[i0].sattrs(), ops));
+            assert(pre == s1(0x01) + (if i0 < gs.len() { keys_enc(gs[i0].sattrs(), ops, ops.len()) } else { Seq::<u8>::empty() }));
+        }
+'''},
+         {'loop': 2, 'where': 'body_start', 'text': '''
+            broadcast use crate::verif_lemmas::group_ipp_attrs;
+            let ghost gi = choose|j: int| 0 <= j < gs.len() && gs[j] == *group && gs[j].stag() != DelimiterTag::OperationAttributes;
+            proof { assert(from_groups(gs, *group)); }
+            let ghost mg = group.sattrs();
+            let ghost base = buf_seq(&buffer);
+'''},
+         {'loop': 3, 'where': 'before', 'text': '''#[verifier::prophetic]
+            let ghost mut cur: Seq<String> = Seq::empty();
+'''},
+         {'loop': 3, 'where': 'body_start', 'text': '''
+                let ghost vks = iter_keys(it4.snapshot@.remaining());
+                let ghost k = vks[it4.index@];
+                proof { crate::verif_lemmas::lemma_iter_keys(mg, it4.snapshot@.remaining()); }
+                proof { assert(mg.contains_key(k) && mg[k] == *attr); }
+'''},
+         {'loop': 3, 'where': 'body_end', 'text': '''
+                proof {
+                    crate::verif_lemmas::lemma_keys_enc_push(mg, cur, k);
+                    cur = cur.push(k);
+                    assert(vks.take(vks.len() as int) =~= vks);
+                    assert(it4.index@ + 1 == vks.len() ==> cur =~= vks);
+                }
+'''},
+         {'loop': 3, 'where': 'after', 'text': '''
+            proof {
+                assert(key_perm(cur, mg));
+                crate::verif_lemmas::lemma_others_enc_push(gs, others, (gi, cur));
+                others = others.push((gi, cur));
+            }
+'''},
+         {'before': 'buffer.freeze()', 'optional': True,
+          'text': 'proof { assert(attrs_enc_ok(gs, buf_seq(&buffer), ops, others)); }'},
+     ]},
 ]
